@@ -57,6 +57,8 @@ class Ctx:
         self.max_depth = max_depth
         self.notes = []           # free-form notes (stubs used etc.)
         self.inputs = {}          # name -> z3 const (declared inputs)
+        self._sqrts = {}          # ast id of argument -> (argument, fresh sqrt var)
+        self.strong = set()       # indices into self.side of 'strong' (nonlinear defining) constraints
         self._decided = {}        # z3 ast id -> decision (cache; ids are stable while the ast is alive)
         self._keep = []
 
@@ -68,6 +70,12 @@ class Ctx:
 
     def pc(self):
         return (self.assumptions + self.side +
+                [e if t else z3.Not(e) for e, t in self.decisions])
+
+    def pc_weak(self):
+        """Path condition without the 'strong' side constraints (a weaker set of
+        assumptions: unsat under it implies unsat under the full one)."""
+        return (self.assumptions + [c for i, c in enumerate(self.side) if i not in self.strong] +
                 [e if t else z3.Not(e) for e, t in self.decisions])
 
     def assume(self, *es):
@@ -370,10 +378,31 @@ def uf(name, arity=1):
     return _UF[key]
 
 
+SQRT_MONO_LEMMAS = True
+
+
 def sym_sqrt(x):
+    """sqrt(x) as a fresh s with s >= 0 (weak) and s*s == x (strong).  The same argument
+    term gives the same s; for every pair of square roots on the path the true lemma
+    x_a <= x_b  <=>  s_a <= s_b is added (weak level), so that most inequalities are decided
+    without the nonlinear defining equation (abstraction ladder, DESIGN 2.7)."""
     if isinstance(x, Sym):
-        s = CTX.fresh('sqrt')
-        CTX.side.append(z3.And(s >= 0, s * s == x.e))
+        c = CTX
+        key = x.e.get_id()
+        hit = c._sqrts.get(key)
+        if hit is not None:
+            return Sym(hit[1])
+        s = c.fresh('sqrt')
+        c.side.append(s >= 0)
+        c.side.append(s * s == x.e)
+        c.strong.add(len(c.side) - 1)
+        if SQRT_MONO_LEMMAS:
+            for (xe, se) in c._sqrts.values():
+                c.side.append(z3.And((xe <= x.e) == (se <= s), (xe == x.e) == (se == s)))
+            c.side.append((x.e == 0) == (s == 0))
+            c.side.append(z3.Implies(x.e >= 1, z3.And(s >= 1, s <= x.e)))
+            c.side.append(z3.Implies(z3.And(x.e >= 0, x.e <= 1), z3.And(s <= 1, s >= x.e)))
+        c._sqrts[key] = (x.e, s)
         return Sym(s)
     return math.sqrt(x)
 
@@ -443,10 +472,11 @@ def var(name):
 
 # --------------------------------------------------------------------------
 class Path:
-    __slots__ = ('pc', 'result', 'exc', 'notes', 'decisions', 'cut')
+    __slots__ = ('pc', 'result', 'exc', 'notes', 'decisions', 'cut', 'pc_weak')
 
-    def __init__(self, pc, result, exc=None, notes=(), decisions=(), cut=False):
+    def __init__(self, pc, result, exc=None, notes=(), decisions=(), cut=False, pc_weak=None):
         self.pc = pc
+        self.pc_weak = pc_weak
         self.result = result
         self.exc = exc
         self.notes = list(notes)
@@ -478,7 +508,7 @@ def explore(fn, assumptions=(), max_paths=256, max_depth=64, catch=(Exception, S
             CTX = c
             try:
                 res = fn()
-                out.append(Path(c.pc(), res, None, c.notes, c.decisions))
+                out.append(Path(c.pc(), res, None, c.notes, c.decisions, pc_weak=(c.pc_weak() if c.strong else None)))
             except PathAbort:
                 info['aborted'] += 1
             except BudgetExceeded:
@@ -619,13 +649,68 @@ def check_sat(constraints, timeout_ms=None, rlimit=None, portfolio=True):
     return r, model
 
 
+_VARS_CACHE = {}
+
+
+def term_vars(t):
+    """Set of uninterpreted constant names occurring in a z3 term (cached by ast id)."""
+    key = t.get_id()
+    hit = _VARS_CACHE.get(key)
+    if hit is not None:
+        return hit[1]
+    out = set()
+    seen = set()
+    stack = [t]
+    while stack:
+        x = stack.pop()
+        i = x.get_id()
+        if i in seen:
+            continue
+        seen.add(i)
+        if z3.is_const(x):
+            if x.decl().kind() == z3.Z3_OP_UNINTERPRETED:
+                out.add(x.decl().name())
+        else:
+            stack.extend(x.children())
+    out = frozenset(out)
+    _VARS_CACHE[key] = (t, out)       # keep the term alive so the id stays valid
+    if len(_VARS_CACHE) > 200000:
+        _VARS_CACHE.clear()
+    return out
+
+
+RELEVANCE = True
+
+
 def prove(pc, claim, timeout_ms=None, rlimit=None):
-    """Is `claim` implied by `pc`?  'unsat' = holds; 'sat' = counterexample."""
+    """Is `claim` implied by `pc`?  'unsat' = holds; 'sat' = counterexample.
+
+    Relevance ladder (sound: fewer assumptions can only turn unsat into sat/unknown):
+    first only the assumptions whose variables all occur in the claim, then those sharing
+    a variable with it, then everything.  Only `unsat` is accepted from the reduced sets;
+    a counterexample always comes from the full path condition.
+    """
     if isinstance(claim, SymBool):
         claim = claim.e
     if isinstance(claim, bool):
         claim = z3.BoolVal(claim)
-    return check_sat(list(pc) + [z3.Not(claim)], timeout_ms, rlimit)
+    pc = list(pc)
+    neg = z3.Not(claim)
+    if RELEVANCE and len(pc) > 12:
+        cv = term_vars(claim)
+        if cv:
+            vs = [term_vars(c) for c in pc]
+            sub = [c for c, v in zip(pc, vs) if v and v <= cv]
+            if sub and len(sub) < len(pc):
+                r, _m = check_sat(sub + [neg], min(int(timeout_ms or DEFAULT_TIMEOUT_MS), 10000), rlimit)
+                if r == 'unsat':
+                    return r, None
+            hop = [c for c, v in zip(pc, vs) if v & cv]
+            if hop and len(sub) < len(hop) < len(pc):
+                r, _m = check_sat(hop + [neg], min(int(timeout_ms or DEFAULT_TIMEOUT_MS), 20000), rlimit)
+                if r == 'unsat':
+                    return r, None
+    return check_sat(pc + [neg], timeout_ms, rlimit)
 
 
 def model_value(model, term):
